@@ -15,10 +15,10 @@ RULE = ('One case = one host (real LinuxAppEnvironment / RuleMgr / EndpointsMgr 
         'vring on/off, shared or private network, shared_ip, all four environments), written as event files and normalised by '
         'the real appcfg.configure.load_runtime_manifest (manifest.load + LinuxRuntime.manifest); in 60% of the cases two '
         'containers carry the SAME instance name with different unique ids. Operations interleave randomly: start (network '
-        'request, real allocate_network_ports on a loopback address, real save_app, real _run._unshare_network; 12% are cut by a '
-        'process kill or a failing ipset call), finish (real _finish.finish reading state.json back, or load_app_safe + '
+        'request, real allocate_network_ports on a loopback address, real save_app, real _run._unshare_network; 15% are cut by a '
+        'process kill, a failing ipset call or one of the four resource services (cgroup, localdisk, network, presence - the last is asked when the private network is set up already) not answering in time; a start that ends with an exception leaves data/aborted with the reason `treadmill sproc run` records), finish (real _finish.finish reading state.json back, or load_app_safe + '
         '_cleanup_network directly; 45% of the containers first get one or two finish attempts that are interrupted - a kill at '
-        'a boundary step, a failing ipset / conntrack call, the open(2) of state.json or of the reply.yml of the network request failing once with a transient error (ENFILE / EIO; the attempt counts as failed when it ends with an exception and is run again as the cleanup supervisor does, an attempt that RETURNS is judged as a completed finish), or a kill right after the network request link was removed, which '
+        'a boundary step, a failing ipset / conntrack call, the open(2) of state.json or of the reply.yml of the network request failing once with a transient error (ENFILE / EIO; the attempt counts as failed when it ends with an exception and is run again as the cleanup supervisor does, an attempt that RETURNS is judged as a completed finish), a second cleanup worker finishing the same container at the same moment and getting ahead of this one inside ResourceServiceClient.delete of one of the four services (its real delete runs between the removal of the request link and the renaming of the request directory by this worker), or a kill right after the network request link was removed, which '
         'lets the network service hand the VIP (lowest free address, as VipMgr does) to the next container - while other '
         'containers start and finish in between, then the complete run - 15% of these while the restarted network service re-processes that very request (the real ResourceService._on_created around the daemon stand-in; the finish runs inside on_create_request); followed by 0-2 immediate repeats), and late repeats of '
         'the finish of already finished containers (after their VIP has been handed to a newer container). Oracle (snapshot arithmetic over rules/, endpoints/ and the IP-set model, '
@@ -60,6 +60,12 @@ ASSUMPTIONS = [
     '(signature-transparent wrappers), every subprocess call, create_newnet, return of ResourceService.clt_del_request of the '
     'network service (i.e. between the removal of the request link and the renaming of the request directory)',
     'an unresolvable passthrough host (4% of the passthrough lists) is unresolvable at start and at finish alike',
+    'the containers that meet a silent resource service or a second cleanup worker, and 1 in 5 of the others, make their cgroup / '
+    'localdisk / presence requests with the real ResourceServiceClient (request directory + link in the service directory); '
+    'nobody answers those requests, run() is given the replies by the harness',
+    'the network daemon stand-in sweeps request links whose directory is gone (ResourceService._check_requests)',
+    'an item of D(A) that an unfinished other container registered as well (it got the VIP A released, after an earlier attempt of '
+    'the finish of A had removed the entries of A) is not counted as left by A',
 ]
 BUDGET = {'quick': (110, 30.0), 'thorough': (1500, 260.0)}
 HASHSEEDS = [0, 1, 2, 3]
@@ -75,6 +81,8 @@ REQUIRED_REACH = {'*': [
     'delta_ipset_infra_endpoint_udp', 'delta_ipset_infra_ephemeral_tcp', 'delta_ipset_infra_ephemeral_udp',
     'manifest_port0_endpoint', 'manifest_infra_endpoint', 'manifest_shared_network', 'manifest_vring',
     'finish_checked_zero_padded_passthrough_literal', 'finish_reply_read_fault_injected',
+    'finish_returned_beside_second_worker', 'finish_second_worker_ahead_at_localdisk',
+    'start_aborted_timeout_presence', 'finish_checked_after_timeout_abort_with_network_setup',
 ]}
 
 # probability that a passthrough list names a host that does not resolve (start aborts, finish must still clean up)
@@ -183,6 +191,11 @@ def _run_case(ctx, idx, rng, tier):
         c.strip_linux_services = rng.random() < 0.125
         # half of the private-network containers are started by the whole _run.run() (node boundaries stubbed)
         c.via_run = rng.random() < 0.5
+    for c in containers:
+        # the containers that meet a silent resource service or a second cleanup worker, and 1 in 5 of the others, make
+        # their cgroup / local-disk / presence requests with the real client (files cost ~1 ms each on this /tmp)
+        c.real_requests = rng.random() < 0.2 or any(
+            o['c'] == c.idx and o.get('cut') and o['cut'][0] in ('timeout', 'other_worker') for o in ops)
     saved_random = random.getstate()
     random.seed(py_seed)
     host = Host(ext_ip, gen.RESOLVER, pool, conntrack_rc=lambda: rc_rng.choice([0, 1]), firewall_plugin=fw_plugin)
@@ -272,7 +285,9 @@ def _run_op(ctx, host, containers, op, initial, case, flags):
         if c.unresolvable:
             ctx.count('manifest_unresolvable_passthrough_host')
         cut = None
-        if op['cut'] is not None and not m['shared_network']:
+        if op['cut'] is not None and not m['shared_network'] and op['cut'][0] == 'timeout':
+            cut = ('timeout', op['cut'][1])
+        elif op['cut'] is not None and not m['shared_network']:
             n = gen.estimate_steps(m, len(m['passthrough']))
             cut = (op['cut'][0], 1 + int(op['cut'][1] * (n if op['cut'][0] == 'kill' else max(1, n // 3))))
         before = host.snapshot()
@@ -294,6 +309,11 @@ def _run_op(ctx, host, containers, op, initial, case, flags):
                        'the start of a container removed host entries', dict(removed=_items(before - after)), case)
         if c.vip is not None and c.vip in vips_before:
             ctx.count('vip_reused')
+        if cut is not None and cut[0] == 'timeout' and status == 'interrupted':
+            ctx.count('start_aborted_timeout_%s' % cut[1])
+            if c.delta:
+                ctx.count('start_aborted_timeout_after_network_setup')
+                c.timed_out_after_setup = True
         if status == 'complete':
             ctx.count('starts_complete')
             if not c.shared:
@@ -318,7 +338,7 @@ def _run_op(ctx, host, containers, op, initial, case, flags):
         cut = None
         if op['cut'] is not None:
             kind, arg = op['cut']
-            if kind in ('kill_at', 'ioerror', 'ioerror_reply'):
+            if kind in ('kill_at', 'ioerror', 'ioerror_reply', 'other_worker'):
                 cut = (kind, arg)
             else:
                 n = gen.estimate_steps(c.manifest, len(c.manifest['passthrough']))
@@ -345,6 +365,10 @@ def _run_op(ctx, host, containers, op, initial, case, flags):
                 ctx.count('finish_returned_after_reply_read_fault')
         host.io_faults_injected.clear()
         complete = status != 'interrupted'
+        if host.second_worker_fired:
+            ctx.count('finish_second_worker_ahead_at_%s' % host.second_worker_fired)
+            if complete:
+                ctx.count('finish_returned_beside_second_worker')
         suffix = ''
         if not complete:
             suffix = '@interrupted-finish'
@@ -363,6 +387,8 @@ def _run_op(ctx, host, containers, op, initial, case, flags):
                     ctx.count('resumed_finish_while_vip_belongs_to_newer_container')
         elif aborted:
             suffix = '@after-aborted-start'
+        if host.second_worker_fired and complete:
+            suffix += '@second-cleanup-worker-ahead'
         _judge_finish(ctx, c, containers, initial, before, after, complete, suffix, case)
         if not c.shared and live_peers:
             flags['peer'] = True
@@ -377,6 +403,8 @@ def _run_op(ctx, host, containers, op, initial, case, flags):
             ctx.count('resumed_finish_checked')
         if aborted:
             ctx.count('aborted_start_then_finish')
+            if getattr(c, 'timed_out_after_setup', False) and op['via'] != 'cleanup_network':
+                ctx.count('finish_checked_after_timeout_abort_with_network_setup')
         if c.shared:
             ctx.count('finish_shared_network')
         elif live_peers:
@@ -414,6 +442,15 @@ def _judge_finish(ctx, c, containers, initial, before, after, complete, suffix, 
                    dict(container=c.idx, removed=_items(foreign), registered_by_its_start=_items(c.delta, 40),
                         vips={o.idx: (o.vip, o.stage, getattr(o, 'via_run', None)) for o in containers},
                         vip_released_by_interrupted_finish=c.vip_released_by_interrupted_finish), case)
+    # an item of D(c) that an unfinished other container registered as well (its start found the item absent, i.e. c's
+    # own had been removed by an earlier attempt; the container got c's released VIP) belongs to that container now
+    mine_still = set()
+    for item in leaked:
+        if any(o is not c and o.stage in ('started', 'aborted') and item in o.delta for o in containers):
+            ctx.count('item_of_finished_container_held_by_live_successor')
+        else:
+            mine_still.add(item)
+    leaked = mine_still
     seen = set()
     for item in sorted(leaked):
         mech = 'left-after-finish:%s%s' % (oracle.label(item, c.state), suffix)
